@@ -27,6 +27,28 @@ from typing import List, Optional, cast
 import math
 
 
+def _ext_add(a, b):
+    """a + b on exact bounds (int, Fraction) extended with float +-inf: an exact
+    number is never converted to float (it may be too large for one)."""
+    if isinstance(a, float):
+        return a
+    if isinstance(b, float):
+        return b
+    return a + b
+
+
+def _ext_mul(a, b):
+    """a * b on exact bounds extended with float +-inf; 0 * inf is nan."""
+    if isinstance(a, float) or isinstance(b, float):
+        sign = ((a > 0) - (a < 0)) * ((b > 0) - (b < 0))
+        return float("nan") if sign == 0 else sign * float("inf")
+    return a * b
+
+
+def _is_nan(a) -> bool:
+    return isinstance(a, float) and math.isnan(a)
+
+
 class TypeChecker(walkers.dag.DagWalker):
     """Walker used to retrieve the `Type` of an expression."""
 
@@ -235,13 +257,13 @@ class TypeChecker(walkers.dag.DagWalker):
             elif lower is None:
                 lower = x.lower_bound
             else:
-                lower += x.lower_bound
+                lower = _ext_add(lower, x.lower_bound)
             if x.upper_bound is None:
                 upper = float("inf")
             elif upper is None:
                 upper = x.upper_bound
             else:
-                upper += x.upper_bound
+                upper = _ext_add(upper, x.upper_bound)
         if lower == -float("inf"):
             lower = None
         if upper == float("inf"):
@@ -276,8 +298,8 @@ class TypeChecker(walkers.dag.DagWalker):
         left_upper = float("inf") if left.upper_bound is None else left.upper_bound
         right_lower = -float("inf") if right.lower_bound is None else right.lower_bound
         right_upper = float("inf") if right.upper_bound is None else right.upper_bound
-        lower = left_lower - right_upper
-        upper = left_upper - right_lower
+        lower = _ext_add(left_lower, -right_upper)
+        upper = _ext_add(left_upper, -right_lower)
         if lower == -float("inf"):
             lower = None
         if upper == float("inf"):
@@ -310,16 +332,17 @@ class TypeChecker(walkers.dag.DagWalker):
                 assert upper is not None
                 # both bounds must be computed from the same products: assigning
                 # lower first and reusing it for upper overestimates the latter.
-                products = (lower * l, lower * u, upper * l, upper * u)
+                products = (
+                    _ext_mul(lower, l),
+                    _ext_mul(lower, u),
+                    _ext_mul(upper, l),
+                    _ext_mul(upper, u),
+                )
                 lower = min(products)
                 upper = max(products)
-        if lower == -float("inf") or (
-            lower is not None and math.isnan(cast(float, lower))
-        ):
+        if lower == -float("inf") or _is_nan(lower):
             lower = None
-        if upper == float("inf") or (
-            upper is not None and math.isnan(cast(float, upper))
-        ):
+        if upper == float("inf") or _is_nan(upper):
             upper = None
         if has_real:
             lower = cast(Optional[Fraction], lower)
@@ -348,9 +371,10 @@ class TypeChecker(walkers.dag.DagWalker):
             left_lower = -float("inf") if left.lower_bound is None else left.lower_bound
             left_upper = float("inf") if left.upper_bound is None else left.upper_bound
             # divide exactly: int / int would round the quotient to a float
-            right = Fraction(right.lower_bound)
-            lower = min(left_lower / right, left_upper / right)
-            upper = max(left_lower / right, left_upper / right)
+            inverse = 1 / Fraction(right.lower_bound)
+            quotients = (_ext_mul(left_lower, inverse), _ext_mul(left_upper, inverse))
+            lower = min(quotients)
+            upper = max(quotients)
         if lower == -float("inf"):
             lower = None
         if upper == float("inf"):
